@@ -1522,6 +1522,9 @@ func (s *Server) sendLWT(cl *Client) {
 	}
 
 	modifiedLWT := s.hooks.OnWill(cl, cl.Properties.Will)
+	if !IsValidFilter(modifiedLWT.TopicName, true) || !s.hooks.OnACLCheck(cl, modifiedLWT.TopicName, true) {
+		return // a will message is subject to the same topic rules and write permissions as any other publish
+	}
 
 	pk := packets.Packet{
 		FixedHeader: packets.FixedHeader{
